@@ -26,8 +26,8 @@ Theorem exception_type_rule_key_error : forall v : valuation,
 Proof. apply rules_ok_key. vm_compute. reflexivity. Qed.
 
 Theorem exception_type_rule_on_types : forall t : exc_type,
-  et_name t <> "builtins.KeyError" ->
-  create_for pass_through_types known_string_constructor_errors base_rules t =
+  mem (et_name t) key_error_types = false ->
+  create_for pass_through_types known_string_constructor_errors key_error_types base_rules t =
   if mem (et_name t) pass_through_types || et_fact t || mem (et_name t) known_string_constructor_errors
   then Same else Staging.
 Proof.
